@@ -8,6 +8,7 @@ boundaries +-1 and a seeded sample; .codepoints is sorted, non-overlapping and n
 rebuilt from the model compares == (extensional equality); operands of non-in-place operators are
 unchanged; at the end the global category/block tables are unchanged (no aliasing leak).
 """
+import re
 import hashlib
 import random
 
@@ -585,9 +586,13 @@ def run_case(case, world):
                             violate('SET_MISMATCH', 'text-regex', 'the class [%s] compiled by re disagrees with the set on %r' % (
                                 text[:80], wrong[:6]), feats)
             elif name == 'cc-new':
+                if re.search(r'\\-\\', op['text']):
+                    feats.append('escaped-hyphen-before-escape')
                 objs.append(CharacterClass(op['text']))
             elif name in ('cc-add', 'cc-discard'):
                 arg = op['text'] if op.get('text') is not None else op['cp']
+                if isinstance(arg, str) and re.search(r'\\-\\', arg):
+                    feats.append('escaped-hyphen-before-escape')
                 getattr(o, name[3:])(arg)
                 feats.append('charset:' + ('escape' if isinstance(arg, str) and '\\' in arg else 'plain'))
                 if isinstance(arg, str):
